@@ -230,11 +230,12 @@ func (n *Concat) compute() {
 	}
 
 	n.comp = &computed{
-		nullable: false,
+		nullable: true,
 		firstPos: Poses{},
 		lastPos:  Poses{},
 	}
 
+	// A concatenation is nullable if and only if all of its operands are nullable.
 	for _, expr := range n.Exprs {
 		n.comp.nullable = n.comp.nullable && expr.nullable()
 	}
